@@ -3,8 +3,8 @@ EXTENDS Containers
 \* exhaustive checker views: the history does not influence behaviour.
 \* ViewNoHist keeps the history length (bounded runs: all histories of <= MaxOps calls);
 \* ViewState drops it (MaxOps larger than the diameter: ALL histories over the bounded universe).
-ViewNoHist == <<store, arr, dict, var, Len(hist)>>
-ViewState == <<store, arr, dict, var>>
+ViewNoHist == <<store, arr, dict, var, snap, sideal, Len(hist)>>
+ViewState == <<store, arr, dict, var, snap, sideal>>
 ASSUME PathsDistinct
 ASSUME KeysDistinct
 ====
